@@ -33,6 +33,10 @@ type ExtOpt struct {
 	// NoSectionMask: bit i set = block i has no filter section (BloomFilterSize 0)
 	// while other blocks of the same file have one
 	NoSectionMask int `json:"nosecmask,omitempty"`
+	// BadTail: this many garbage bytes follow the last row of the FIRST block's
+	// row data (covered by the block's hash and sizes): the block verifies, its
+	// rows scan, and the scan then fails on a truncated length prefix
+	BadTail int `json:"badtail,omitempty"`
 }
 
 var crcTable = crc32.MakeTable(crc32.Castagnoli)
@@ -208,6 +212,9 @@ func writeExternalFile(w *World, cfg EngCfg, cfgIdx int, st Step, nextID *int) (
 					}
 				}
 			}
+		}
+		if opt.BadTail > 0 && len(meta.DataBlocks) == 0 {
+			data.Write(bytes.Repeat([]byte{0xff}, opt.BadTail))
 		}
 		bm := bs.DataBlockMetadata{
 			RowDataOffset: offset, RowDataSize: data.Len(), Rows: len(b.rows),
